@@ -16,8 +16,9 @@ RULE = (
     "every single pre-emption placement; Hypothesis: longer histories with tapes. Oracle = invariants over the totally ordered "
     "history: cancel() bool / never raises / True => stays cancelled / False on normally finished; terminal observations never "
     "change; every callback exactly once and only when done; every waiter released (no TimeoutError) once the subject is terminal, "
-    "and a wait() that starts after a done-callback ran reports it as done. Non-trivial = a cancel/add_cb/waiter overlapping the "
-    "completing call (by sequence numbers) or parked before it. Distinct = digest of the case."
+    "and a wait() that starts after a done-callback of a future finished by value or exception ran reports it as done (after a "
+    "cancellation a standard Future promises that only once the canceller has called set_running_or_notify_cancel()). Non-trivial = a "
+    "cancel/add_cb/waiter overlapping the completing call (by sequence numbers) or parked before it. Distinct = digest of the case."
 )
 ASSUMPTIONS = [
     "a callback registered on an already-done library future is invoked directly and its own exception reaches the registrant (documented by the suite's test_broken_callback); recorded, not flagged",
@@ -296,8 +297,11 @@ def evaluate(case):
                 continue  # the future's own outcome
             bad("exception-escaped-%s:%s" % (o["op"][0], r[1]), result=r)
     # a wait() that STARTS after some done-callback of the subject has run (the future is finished by then, whoever asks) must
-    # report it as done
-    cb_seqs = [ev[0] for ev in s.events if ev[3] == "cb" and ev[4].get("fut") == "S"]
+    # report it as done - for completion by value or exception.  NOT for cancellation: a standard Future runs the callbacks
+    # inside cancel(), in state CANCELLED, and wait() / as_completed() learn of it only at set_running_or_notify_cancel(), which
+    # whoever cancelled calls afterwards; the f_and / f_or / f_zip outputs ARE standard Futures and behave so (the first version of
+    # this clause covered cancellation too and the thorough tier rightly tripped over it on the unchanged tree).
+    cb_seqs = [ev[0] for ev in s.events if ev[3] == "cb" and ev[4].get("fut") == "S" and not ev[4].get("cancelled")]
     if cb_seqs:
         for o in ops:
             if o["op"][0] == "wait" and o["op"][1] == ["S"] and o["call_seq"] > min(cb_seqs) and o["result"] and o["result"][0] == "ok" and o["result"][1]["not_done"]:
